@@ -50,6 +50,8 @@ def parseStep : Sexp → Option Step
   | .list [.atom "ok", d, v] => do pure (.ok (← d.toNat?) (← v.toNat?))
   | .list [.atom "fail", d, v] => do pure (.fail (← d.toNat?) (← v.toNat?))
   | .list [.atom "hostfail", d, v] => do pure (.hostFail (← d.toNat?) (← v.toNat?))
+  | .list [.atom "okio"] => some .okIO
+  | .list [.atom "afail", d, v] => do pure (.asyncFail (← d.toNat?) (← v.toNat?))
   | _ => none
 
 /-- Table coverage (what `decide` would take minutes to evaluate in the kernel): entries of the modelled
@@ -63,8 +65,11 @@ def coverage : String :=
   let stray := all.filter fun n => !(tab.any (·.name == n))
   let rawTab := (tab.filter fun e => e.kind == "raw").map (·.name)
   let rawDiff := (rawTab.filter fun n => !rawExternNames.contains n) ++ (rawExternNames.filter fun n => !rawTab.contains n)
+  let asyncTab := (tab.filter fun e => e.kind == "async").map (·.name)
+  let asyncDiff := (asyncTab.filter fun n => !GluonModel.Frames.asyncStepped.contains n)
+    ++ (GluonModel.Frames.asyncStepped.filter fun n => !asyncTab.contains n)
   let shw (l : List String) := String.join (l.map fun n => " " ++ Sexp.quote n)
-  "(coverage (unmodelled" ++ shw unm ++ ") (ghost" ++ shw ghost ++ ") (dup" ++ shw dup ++ ") (stray" ++ shw stray ++ ") (raw-route" ++ shw rawDiff ++ "))"
+  "(coverage (unmodelled" ++ shw unm ++ ") (ghost" ++ shw ghost ++ ") (dup" ++ shw dup ++ ") (stray" ++ shw stray ++ ") (raw-route" ++ shw rawDiff ++ ") (async-steps" ++ shw asyncDiff ++ "))"
 
 open GluonModel.Frames in
 def handle : List Sexp → String
